@@ -287,35 +287,39 @@ func (p *ParserZH) setStmtCurrentLine(s syntax.Statement, tk *syntax.Token) {
 	}
 }
 
+// currStartIdx - start index of the current token; before the first token has been
+// consumed there is no current token yet: fall back to the peek token (or 0)
+func (p *ParserZH) currStartIdx() int {
+	if p.TokenP1 != nil {
+		return p.TokenP1.StartIdx
+	}
+	if p.TokenP2 != nil {
+		return p.TokenP2.StartIdx
+	}
+	return 0
+}
+
+// peekStartIdx - start index of the peek token (or of the current one if there is no peek token)
+func (p *ParserZH) peekStartIdx() int {
+	if p.TokenP2 != nil {
+		return p.TokenP2.StartIdx
+	}
+	return p.currStartIdx()
+}
+
 // wrap 0x2250 InvalidSyntaxCurr - with current token's startIdx
 func (p *ParserZH) getInvalidSyntaxCurr() error {
-	startIdx := p.TokenP1.StartIdx
-	return zerr.InvalidSyntax(startIdx)
+	return zerr.InvalidSyntax(p.currStartIdx())
 }
 
 func (p *ParserZH) getInvalidSyntaxPeek() error {
-	startIdx := p.TokenP1.StartIdx
-	if p.TokenP2 != nil {
-		startIdx = p.TokenP2.StartIdx
-	}
-
-	return zerr.InvalidSyntax(startIdx)
+	return zerr.InvalidSyntax(p.peekStartIdx())
 }
 
 func (p *ParserZH) getUnexpectedIndentPeek() error {
-	startIdx := p.TokenP1.StartIdx
-	if p.TokenP2 != nil {
-		startIdx = p.TokenP2.StartIdx
-	}
-
-	return zerr.UnexpectedIndent(startIdx)
+	return zerr.UnexpectedIndent(p.peekStartIdx())
 }
 
 func (p *ParserZH) getExprMustTypeIDPeek() error {
-	startIdx := p.TokenP1.StartIdx
-	if p.TokenP2 != nil {
-		startIdx = p.TokenP2.StartIdx
-	}
-
-	return zerr.ExprMustTypeID(startIdx)
+	return zerr.ExprMustTypeID(p.peekStartIdx())
 }
